@@ -59,7 +59,7 @@ ValueError TypeError NotImplementedError RuntimeError NameError ZeroDivisionErro
 AttributeError ImportError
 '''.split())
 # builtins whose result holds the same elements as the arguments
-EXT_ELEMS = set('tuple list set frozenset dict zip enumerate sorted reversed iter next min max sum any all filter'.split())
+EXT_ELEMS = set('tuple list set frozenset dict zip enumerate sorted reversed iter next min max sum any all filter dask.compute'.split())
 EXT_COPY = set('numpy.array numpy.copy copy.deepcopy copy.copy'.split())
 EXT_VIEW = set('''numpy.reshape numpy.ravel numpy.transpose numpy.squeeze numpy.expand_dims numpy.broadcast_to numpy.atleast_1d
 numpy.atleast_2d numpy.swapaxes numpy.moveaxis numpy.nditer numpy.ma.masked_array numpy.flip numpy.rot90 numpy.diagonal
@@ -1555,7 +1555,7 @@ RULE = ('every public raster function (registry below = RASTER_FUNCS) x backend 
         'buffer), write-to-output probe, output identity (shape, dims, coords, attrs, backend), compared with the property text '
         '(oracle) and with the verdict of the extracted checker on the regenerated IR of that function (correspondence); plus '
         'call sequences of length 2..4 on the same raster objects. Quick tier: a latin-square sample of the cross product '
-        '(every dtype, layout and backend occurs for several functions); thorough tier: the full dtype x layout product on NumPy, every dtype x 2 layouts on Dask, 60 sequences. A case is '
+        '(every dtype, layout and backend occurs for several functions); thorough tier: the full backend x dtype x layout product, 60 sequences. A case is '
         'non-trivial when the call returned a result (calls that raise for a dtype/layout are counted separately and still '
         'checked for unmodified inputs).')
 TRUSTED = [
@@ -1985,11 +1985,9 @@ def gen_cases(ctx, only=None, full=False):
         ent = reg[fn]
         combos = []
         if full:
-            # NumPy backend: the full dtype x layout product; Dask backend: every dtype x {C, one rotating other layout}
-            # (the Dask wrappers hand NumPy blocks of the same dtype to the same kernels)
             for be in ent['backends']:
-                for di, dt in enumerate(DTYPES):
-                    for lo in (LAYOUTS if be == 'numpy' else ['C', LAYOUTS[1 + (di + fi) % 3]]):
+                for dt in DTYPES:
+                    for lo in LAYOUTS:
                         combos.append((be, dt, lo))
         else:
             # latin-square style sample: 5 cells per function, all layouts, >= 3 dtypes incl. float32/float64, every backend
